@@ -14,7 +14,7 @@ class HMAC(object):
     def setkey(self,k):
         sz = self.h.blocksize//8
         if   len(k)>sz: k = self.h(k)
-        elif len(k)<sz: k +=b'\0'*(sz-len(k))
+        if   len(k)<sz: k +=b'\0'*(sz-len(k))
         self.K = bytes(k)
 
     def __call__(self,m):
